@@ -278,6 +278,14 @@ def limit (first skip : Nat) {α : Type} (l : List α) : List α :=
   let l := l.drop skip
   if first = 0 then l else l.take first
 
+/-- insertion of `x` before the first element it is not after -/
+def insertBy {α : Type} (le : α → α → Bool) (x : α) : List α → List α
+  | [] => [x]
+  | y :: t => if le x y then x :: y :: t else y :: insertBy le x t
+
+/-- stable insertion sort -/
+def sortBy {α : Type} (le : α → α → Bool) (l : List α) : List α := l.foldr (insertBy le) []
+
 /-! ## The evaluator -/
 
 /-- the rows of `data` with the given ids, in the order of `data` (the engine defines no order) -/
@@ -301,25 +309,24 @@ mutual
         r.ent = ent &&
         q.sels.all (fun sel => subPresent d s data fuel myKey r sel) &&
         q.filters.all (filterHolds d s ent r)
-      let sorted := ok.mergeSort fun a b => tupleLe q.orders (keysOf d s ent q.orders a) (keysOf d s ent q.orders b)
+      let sorted := sortBy (fun a b => tupleLe q.orders (keysOf d s ent q.orders a) (keysOf d s ent q.orders b)) ok
       let paged := sorted.filter fun r => cursorHolds d q.orders q.after q.before (keysOf d s ent q.orders r)
       if limited then limit q.first q.skip paged else paged
 
   /-- a mandatory sub-selection must select something -/
   def subPresent (d : Defects) (s : Schema) (data : Data) : Nat → String → Row → Sel → Bool
-    | 0, _, _, _ => false
-    | fuel + 1, myKey, r, sel =>
-      match sel with
-      | .sub key fld optional q =>
-        match fieldDef s r.ent fld with
-        | some fd =>
-          if optional || fd.nullable then true
-          else
-            let isArr := match fd.kind with | .arr _ => true | _ => false
-            -- a single reference ignores the sub-selection's `first`/`skip`
-            !(evalRows d s data fuel key q (subCandidates d data myKey key r fld q.ent) isArr).isEmpty
-        | none => false
-      | _ => true
+    | _, _, _, .scalar _ _ => true
+    | _, _, _, .id _ => true
+    | 0, _, _, .sub _ _ _ _ => false
+    | fuel + 1, myKey, r, .sub key fld optional q =>
+      match fieldDef s r.ent fld with
+      | some fd =>
+        if optional || fd.nullable then true
+        else
+          let isArr := match fd.kind with | .arr _ => true | _ => false
+          -- a single reference ignores the sub-selection's `first`/`skip`
+          !(evalRows d s data fuel key q (subCandidates d data myKey key r fld q.ent) isArr).isEmpty
+      | none => false
 end
 
 mutual
